@@ -155,7 +155,7 @@ def quadruples(m, scratch, rng, rep, n):
     return total
 
 
-EVOLUTIONS = ["reversion", "remove", "rename", "recluster", "edit-body-autoversion", "zero-params"]
+EVOLUTIONS = ["reversion", "remove", "rename", "recluster", "edit-body-autoversion", "zero-params", "fn-argument"]
 
 
 def evolution(m, scratch, rng, rep, cluster, kind, idx, read_before=False):
@@ -170,8 +170,13 @@ def evolution(m, scratch, rng, rep, cluster, kind, idx, read_before=False):
     zero = kind == "zero-params"
     callee_sig, callee_call = ("", "callee()") if zero else ("x", "callee(x)")
 
+    via_arg = kind == "fn-argument"
+
     def src(callee_version, callee_name="callee", callee_cluster=cl, body="x + 1", with_callee=True):
         lines = ["import builtins", "from twosigma.memento import memento_function", ""]
+        if via_arg:
+            # the callee reaches the caller's records as an ARGUMENT of another memento function
+            lines += ["@memento_function(%sversion=\"1\")" % cl, "def apply_fn(fn, x):", "    return fn(x)", ""]
         if with_callee:
             ver = "" if callee_version is None else "version=%r" % callee_version
             lines += ["@memento_function(%s%s)" % (callee_cluster, ver),
@@ -179,6 +184,8 @@ def evolution(m, scratch, rng, rep, cluster, kind, idx, read_before=False):
                       "    builtins._vt((\"exec\", \"callee\", 0, None))",
                       "    return %s" % ("41" if zero else body), ""]
         call = callee_call.replace("callee", callee_name) if with_callee else "0"
+        if via_arg:
+            call = "apply_fn(%s, x)" % callee_name
         deps = "dependencies=[%s], " % callee_name if with_callee else ""
         lines += ["@memento_function(%s%sversion=\"1\")" % (cl, deps),
                   "def caller(x):",
@@ -201,7 +208,7 @@ def evolution(m, scratch, rng, rep, cluster, kind, idx, read_before=False):
             mod.caller.memento(3)
             mod.caller.list_mementos()
             mod.caller(3)
-        if kind == "reversion" or kind == "zero-params":
+        if kind == "reversion" or kind == "zero-params" or kind == "fn-argument":
             mod = write_module(root, modname, src("2"))
         elif kind == "remove":
             mod = write_module(root, modname, src(None, with_callee=False))
@@ -215,6 +222,8 @@ def evolution(m, scratch, rng, rep, cluster, kind, idx, read_before=False):
         rep.violation("C12:evolution-setup:%s" % type(e).__name__, "%s: %s" % (type(e).__name__, str(e)[:200]), meta)
         return
     checks = [("call", lambda: mod.caller(3)), ("memento", lambda: mod.caller.memento(3)), ("list_mementos", lambda: mod.caller.list_mementos()),
+              ] + ([("list_mementos of the function that received it", lambda: mod.apply_fn.list_mementos())] if via_arg else []) + [
+              
               ("list_memoized_functions", lambda: m.list_memoized_functions(cluster))]
     for name, f in checks:
         tr.clear()
